@@ -80,17 +80,18 @@ class TLCResult:
 
 
 _PRINT_RE = re.compile(r'^<<"([A-Za-z0-9_]+)", (".*")>>\s*$')
-_COV_RE = re.compile(r"^<(\w+) line \d+, col \d+ to line \d+, col \d+ of module (\w+)>: (\d+):(\d+)")
+_PRINT_ANY = re.compile(r'<<"([A-Za-z0-9_]+)", "((?:[^"\\]|\\.)*)">>')
+_COV_RE = re.compile(r"^<(\w+) line \d+, col \d+ to line \d+, col \d+ of module (\w+)(?: \([\d ]+\))?>: (\d+):(\d+)")
 
 
 def parse_tlc_output(out: str, res: TLCResult):
+    for m in _PRINT_ANY.finditer(out):
+        try:
+            res.prints.append((m.group(1), json.loads(json.loads('"' + m.group(2) + '"'))))
+        except Exception:
+            pass
     for line in out.splitlines():
-        m = _PRINT_RE.match(line)
-        if m:
-            try:
-                res.prints.append((m.group(1), json.loads(json.loads(m.group(2)))))
-            except Exception:  # interleaved line from several workers
-                pass
+        if line.startswith('<<"'):
             continue
         m = _COV_RE.match(line)
         if m:
@@ -208,7 +209,11 @@ def require_ok(res: TLCResult, what: str):
 
 def require_actions(res: TLCResult, actions: list[str], what: str):
     """Vacuity guard: every named action must have been taken at least once."""
-    missing = [a for a in actions if res.coverage.get(a, (0, 0))[0] == 0]
+    def taken(a):
+        alts = a if isinstance(a, (tuple, list)) else (a,)
+        return any(res.coverage.get(x, (0, 0))[0] > 0 for x in alts)
+
+    missing = [a for a in actions if not taken(a)]
     if missing:
         raise MachineryError(f"{what}: actions never taken (vacuous model): {missing}")
 
